@@ -105,7 +105,22 @@ def sync_lockfile(ws_dir):
             f.write(h)
 
 
+def relocate_harness():
+    """The harness crates name the repository by the path /repo; when a run is pointed at another checkout
+    (VERIF_REPO, e.g. the snapshot of a background run) the manifests of *this* copy of the harness are rewritten."""
+    if REPO == "/repo":
+        return
+    for name in os.listdir(HARNESS):
+        m = os.path.join(HARNESS, name, "Cargo.toml")
+        if os.path.isfile(m):
+            t = open(m).read()
+            if 'path = "/repo/' in t:
+                with open(m, "w") as f:
+                    f.write(t.replace('path = "/repo/', 'path = "%s/' % REPO))
+
+
 def cargo(args, ws_dir, env=None, timeout=3600, check=True):
+    relocate_harness()
     sync_lockfile(ws_dir)
     e = {"CARGO_TARGET_DIR": TARGET, "CARGO_NET_OFFLINE": "true", "RUSTFLAGS": os.environ.get("RUSTFLAGS", "")}
     if env:
